@@ -24,7 +24,7 @@ instance state alone.  Operations: the queries (including route decoding `get_ro
 |   `self.var_mapping.index(tuple)` / `ValueError → None`                 | `idxOf? o1.varMapping u` (search of the CACHED list)      |
 | `get_var_tuple_index`: `self.enumerate_variables()`; `var_mapping[k]`   | `getVarTupleIndex`: `o1.varMapping[k]?`                   |
 | `get_routes(x)`: `np.nonzero(solution)[0]`                              | `ArcObj.getRoutes`: `selectedIdx x` (positions with `x[k] ≠ 0`) |
-|   `[self.get_var_tuple_index(k) for k in …]`, nothing selected          | no lookup, no enumeration; `np.lexsort` raises on the empty key list: `(o, .error .type)` |
+|   `[self.get_var_tuple_index(k) for k in …]`, nothing selected          | no lookup, no enumeration; `tuples_ordered = []`, the `while` loop is skipped and `assert all(visited[1:] == 1)` decides: `(o, if arcAssertsTuples o.inst.g [] then .ok [] else .error .assert)` — `[]` for a depot-only problem, `AssertionError` as soon as there is a customer |
 |   … something selected: each lookup calls `enumerate_variables()`       | `o1 := o.enumerateVariables` (flag honoured), tuples `o1.varMapping[k]?` from the CACHE |
 |   an index `≥ len(var_mapping)`: lookup gives `None`, the array calls raise | `arcRoutesFrom`: `.error .type` (object stays enumerated) |
 |   `np.lexsort`, the `while` loop                                        | `arcDecodeTuples` (`sortA`, `arcDecodeGo` / `followArc`, `VrpModel/ArcBased.lean`) |
@@ -187,7 +187,7 @@ def gmut (fl : Flavor) (g : Graph) : GMut → Graph × GOut
 def selectedIdx (x : List Rat) : List Nat :=
   ((List.range x.length).zip x).filterMap fun e => if e.2 = 0 then none else some e.1
 
-/-- arc `get_routes` once at least one index is selected, on a given variable list `vm` (the object passes its CACHED
+/-- arc `get_routes` when at least one index is selected, on a given variable list `vm` (the object passes its CACHED
     `var_mapping`, the specification the enumeration of the instance): `get_var_tuple_index(k)` is `None` for an index
     beyond the list and the array functions then raise (`.type`); otherwise sort, route construction, and the
     assertions of the code (`.assert`) -/
@@ -245,12 +245,13 @@ def ArcObj.getVarTupleIndex (o : ArcObj) (k : Nat) : ArcObj × Option ATup :=
   let o1 := o.enumerateVariables
   (o1, o1.varMapping[k]?)
 
-/-- `get_routes(x)`.  Nothing selected: `np.lexsort` raises on the empty key list before any lookup, so nothing is
-    enumerated.  Otherwise the first `get_var_tuple_index` enumerates (honouring the flag) and every tuple comes from
+/-- `get_routes(x)`.  Nothing selected: no lookup happens, so nothing is enumerated and the object is unchanged; the
+    route list is empty and the final `assert all(visited[1:] == 1)` decides (it holds exactly when there is no customer:
+    `arcAssertsTuples g []`).  Otherwise the first `get_var_tuple_index` enumerates (honouring the flag) and every tuple comes from
     the CACHED `var_mapping`; window test and node count use the current graph. -/
 def ArcObj.getRoutes (o : ArcObj) (x : List Rat) : ArcObj × Except Err (List (List (Nat × Rat))) :=
   let sel := selectedIdx x
-  if sel.isEmpty then (o, .error .type)
+  if sel.isEmpty then (o, if arcAssertsTuples o.inst.g [] then .ok [] else .error .assert)
   else
     let o1 := o.enumerateVariables
     (o1, arcRoutesFrom o1.inst.g o1.varMapping sel)
@@ -637,7 +638,7 @@ def ArcInst.heurP (I : ArcInst) (high : Rat) : ArcInst × HeurRes :=
 /-- `get_routes(x)` answered from the instance alone (no cache): the enumeration is recomputed -/
 def ArcInst.getRoutes (I : ArcInst) (x : List Rat) : Except Err (List (List (Nat × Rat))) :=
   let sel := selectedIdx x
-  if sel.isEmpty then .error .type else arcRoutesFrom I.g I.vars sel
+  if sel.isEmpty then (if arcAssertsTuples I.g [] then .ok [] else .error .assert) else arcRoutesFrom I.g I.vars sel
 
 /-- abstract state: the problem data and the stored solution -/
 structure ArcAbs where
